@@ -25,6 +25,7 @@ import (
 	"github.com/tikv/pd/pkg/etcdutil"
 	"github.com/tikv/pd/pkg/typeutil"
 	"github.com/tikv/pd/server"
+	"github.com/tikv/pd/server/core"
 	"go.etcd.io/etcd/clientv3"
 	"google.golang.org/grpc"
 
@@ -49,13 +50,14 @@ type op struct {
 	Out   int    `json:",omitempty"` // 0 Ok 1 ErrNotApplied 2 ErrApplied
 	M     int    `json:",omitempty"`
 	H     string `json:",omitempty"`
+	Ver   string   `json:",omitempty"` // boot/begin: the store's version string ("" = unset)
 	Cfg   string   `json:",omitempty"` // putcfg: body class "right" (id, max 5) "right9" (id, max 9) "zero" (id 0, max 7) "unset" (all default) "nil" (no body) "wrong" (id+1)
 	HS    []string `json:",omitempty"` // stream: the header class of each message on the one stream
 }
 
 func (o op) request(h *pdpb.RequestHeader) *pdpb.BootstrapRequest {
 	sid, rid, pid := uint64(1000+o.N), uint64(2000+o.N), uint64(3000+o.N)
-	st := &metapb.Store{Id: sid, Address: fmt.Sprintf("127.0.0.1:%d", 20000+o.N)}
+	st := &metapb.Store{Id: sid, Address: fmt.Sprintf("127.0.0.1:%d", 20000+o.N), Version: o.Ver}
 	rg := &metapb.Region{Id: rid, Peers: []*metapb.Peer{{Id: pid, StoreId: sid}}}
 	req := &pdpb.BootstrapRequest{Header: h, Store: st, Region: rg}
 	switch o.PK {
@@ -793,7 +795,15 @@ func (w *world) view() string {
 	}
 	cid := "None"
 	if w.noMemberKey {
-		return fmt.Sprintf("(View %s %s %s %s %s)", coqfmt.Bool(hasRoot), coqfmt.Bool(hasTime), coqfmt.List(stores), coqfmt.List(regions), cid)
+		return fmt.Sprintf("(View %s %s %s %s %s [])", coqfmt.Bool(hasRoot), coqfmt.Bool(hasTime), coqfmt.List(stores), coqfmt.List(regions), cid)
+	}
+	// the region storage: what a restart loads the regions from
+	var rstore []string
+	if err := w.x.S.GetStorage().LoadRegions(func(r *core.RegionInfo) []*core.RegionInfo {
+		rstore = append(rstore, coqfmt.ZU(r.GetID()))
+		return nil
+	}); err != nil {
+		panic(err)
 	}
 	r2, err := w.admin.Get(w.ctx, w.mkey)
 	if err != nil {
@@ -806,7 +816,7 @@ func (w *world) view() string {
 		}
 		cid = fmt.Sprintf("(Some %d%%nat)", w.rename(v))
 	}
-	return fmt.Sprintf("(View %s %s %s %s %s)", coqfmt.Bool(hasRoot), coqfmt.Bool(hasTime), coqfmt.List(stores), coqfmt.List(regions), cid)
+	return fmt.Sprintf("(View %s %s %s %s %s %s)", coqfmt.Bool(hasRoot), coqfmt.Bool(hasTime), coqfmt.List(stores), coqfmt.List(regions), cid, coqfmt.List(rstore))
 }
 
 func (w *world) reset(caseNo int) {
@@ -873,6 +883,16 @@ func pickHdr(r *rng.R, foreign int) string {
 	return ""
 }
 
+// unusual store versions: Bootstrap does not look at the version; whatever it is, the answer and the stored state must agree
+var storeVersions = []string{"None", "v2.1.0", "4.0.0-rc.2", "not-a-version"}
+
+func pickVer(r *rng.R) string {
+	if r.Pct(25) {
+		return storeVersions[r.Intn(len(storeVersions))]
+	}
+	return ""
+}
+
 func pickPayload(r *rng.R, malformed int) string {
 	if r.Pct(malformed) {
 		return payloadKinds[1+r.Intn(len(payloadKinds)-1)]
@@ -902,12 +922,12 @@ func (w *world) genCase(r *rng.R, kind int, maxOps int) caseRec {
 			switch r.Pick(22, 30, 26, 8, 7, 3, 8) {
 			case 0:
 				if len(idle) > 0 {
-					w.step(&c, op{K: "boot", T: idle[r.Intn(len(idle))], PK: pickPayload(r, malformed), Hdr: pickHdr(r, 14)})
+					w.step(&c, op{K: "boot", T: idle[r.Intn(len(idle))], PK: pickPayload(r, malformed), Hdr: pickHdr(r, 14), Ver: pickVer(r)})
 					return true
 				}
 			case 1:
 				if len(idle) > 0 {
-					w.step(&c, op{K: "begin", T: idle[r.Intn(len(idle))], PK: pickPayload(r, malformed), Hdr: pickHdr(r, 10)})
+					w.step(&c, op{K: "begin", T: idle[r.Intn(len(idle))], PK: pickPayload(r, malformed), Hdr: pickHdr(r, 10), Ver: pickVer(r)})
 					return true
 				}
 			case 2:
@@ -1002,6 +1022,11 @@ func directed(handlers []string) [][]op {
 		// the winner's cluster.Start fails: error answer, record stored; retries are refused; the reload brings the cluster up
 		{{K: "begin", T: 0, PK: "valid"}, {K: "begin", T: 1, PK: "valid"}, {K: "finishsf", T: 0}, {K: "isboot"}, {K: "finish", T: 1}, {K: "boot", T: 2, PK: "valid"},
 			{K: "isboot"}, {K: "reload"}, {K: "isboot"}, {K: "boot", T: 2, PK: "valid"}},
+		// unusual store versions: the answer and the stored state agree (a refused Bootstrap leaves nothing behind)
+		{{K: "boot", T: 0, PK: "valid", Ver: "None"}, {K: "isboot"}, {K: "reload"}, {K: "isboot"}},
+		{{K: "begin", T: 0, PK: "valid", Ver: "not-a-version"}, {K: "boot", T: 1, PK: "valid", Ver: "v2.1.0"}, {K: "finish", T: 0}, {K: "isboot"}},
+		// two concurrent requests, the loser has the larger region id; the region storage (what a restart loads) must hold the winner's only
+		{{K: "begin", T: 0, PK: "valid"}, {K: "begin", T: 1, PK: "valid"}, {K: "finish", T: 0}, {K: "finish", T: 1}, {K: "reload"}, {K: "isboot"}, {K: "boot", T: 2, PK: "valid"}, {K: "reload"}},
 		// members racing for the cluster id
 		{{K: "membegin", M: 0}, {K: "membegin", M: 1}, {K: "membegin", M: 2}, {K: "memfinish", M: 1}, {K: "memfinish", M: 0}, {K: "memfinish", M: 2}, {K: "meminit", M: 1}},
 		{{K: "membegin", M: 0}, {K: "membegin", M: 1}, {K: "memfinish", M: 0, Out: 2}, {K: "memfinish", M: 1}, {K: "meminit", M: 0}, {K: "meminit", M: 2}},
